@@ -3,23 +3,24 @@ import OrdModel.Proofs.IndexMiscNoPanicSats
 import OrdModel.Proofs.IndexMiscNoPanicInputs
 import OrdModel.Proofs.IndexMiscNoPanicLift
 import OrdModel.Proofs.IndexMiscNoPanicAll
+import OrdModel.Proofs.IndexLiftNoPanicChain
 import OrdModel.Index.PanicSitesExpected
 import OrdModel.Generated.PanicSites
 /-
 C16 — indexing a valid chain never fails.  Property statements only; lemmas are in
-`OrdModel/Proofs/IndexMiscNoPanic*.lean`, the validity predicate in `OrdModel/Index/Valid.lean`.
+`OrdModel/Proofs/IndexMiscNoPanic*.lean` (structural walk, rune side) and
+`OrdModel/Proofs/IndexLiftNoPanic*.lean` (the lift: mid-block invariants and chain induction for the
+sat / address / inscription pass), the validity predicate in `OrdModel/Index/Valid.lean`.
 
-Full statement (NOT proved yet; see notes/C16.md for what is missing):
+Full statement, PROVED below as `c16_no_failure` (and `c16_no_failure_isOk`):
 
   theorem c16_no_failure (chain : List Block) (h : Valid.validChain chain = true) (cfg : Cfg) :
       (∀ s, run cfg chain ≠ .panic s) ∧ (∀ e, run cfg chain ≠ .err e)
 
-What is proved: for configurations with only the rune index on, a valid chain never ends in an
-`err` and can panic only at the three sites of the rune updater whose safety is supply
-conservation (C08) — every other failure site of the rune updater (the edict-output assert, the
-pointer assert, the node-answer unwraps of `tx_commits_to_rune`, `Lot` underflow in `allocate`,
-`allocated[output]` indexing) is discharged from `validChain`.  The same is proved per
-transaction for an arbitrary index state.
+The older theorems are kept (names are listed in checks/C16.json): the `_partial` ones state what
+was known before the lift (rune-only configurations; every configuration up to the 13 sites of
+`utxoResidualSites`); `c16_no_failure_partial2` restates the every-configuration theorem with the
+residual list of the lift, which is empty.
 -/
 namespace Ord.Index
 open Outcome
@@ -98,6 +99,56 @@ theorem c16_no_failure_of_utxo_pass (chain : List Block) (h : Valid.validChain c
 /-- the hypothesis is satisfiable: on the example chain with every index on -/
 example : (run ⟨true, true, true, true, true, 0, 0, 0⟩ [⟨0, 0, 11, 0,
     [⟨1, [⟨OutPoint.null, false, none, []⟩], [⟨5000000000, false, []⟩], [], none, 100⟩]⟩]).isOk = true := by decide
+
+/-! ### the full statement (lift of the sat / address / inscription pass) -/
+
+/-- **The first pass never fails on the next block of a valid chain**: for every configuration that
+runs it (at least one of the inscription / address / sat indexes on), every split
+`chain = pre ++ b :: suf` of a valid chain and every state reached by indexing `pre`,
+`index_utxo_entries` on `b` does not panic — the hypothesis `UtxoPassOk` of
+`c16_no_failure_of_utxo_pass`, discharged.  All 13 sites of `utxoResidualSites` are excluded: the two
+`takeInputEntries` sites and `insufficient inputs` by the UTXO/value correspondence with
+`Valid.spendInputs` / `conserves`, the three subtractions by `conserves` / `coinbaseWithinReward`,
+`calculate_sat` by the offset bounds of new flotsam, the five entry lookups by `IdsOK` and the bound
+on listed sequence numbers, the `i32` count by the envelope budget `< 2^31 - 1`. -/
+theorem c16_utxo_pass_ok (chain : List Block) (h : Valid.validChain chain = true) (cfg : Cfg)
+    (hcfg : NoPanic.FirstPassOn cfg) : UtxoPassOk cfg chain :=
+  NoPanic.utxoPassOk_of_validChain cfg hcfg chain h
+
+/-- The invariant behind it, for every reachable state of a valid chain: every output unspent
+according to `validChain`'s own UTXO set is in the UTXO table with its value (sat ranges or stored
+value) and, with the address index on, its script row; every listed sequence number and every
+`id2seq` row points at an existing inscription entry; cursed + blessed ≤ envelopes seen. -/
+theorem c16_boundary_invariant (chain : List Block) (cfg : Cfg) (hcfg : NoPanic.FirstPassOn cfg)
+    (st : State) (evs : List Event) (hrun : run cfg chain = .ok (st, evs))
+    (vs : Valid.VState) (hv : Valid.checkChain chain {} = some vs) : NoPanic.Bnd cfg vs st :=
+  NoPanic.run_bnd cfg hcfg chain st evs hrun vs hv
+
+/-- **C16, FULL, every configuration**: indexing a chain accepted by `validChain` neither panics nor
+returns an error. -/
+theorem c16_no_failure (chain : List Block) (h : Valid.validChain chain = true) (cfg : Cfg) :
+    (∀ s, run cfg chain ≠ .panic s) ∧ (∀ e, run cfg chain ≠ .err e) := by
+  by_cases hcfg : NoPanic.FirstPassOn cfg
+  · exact c16_no_failure_of_utxo_pass chain h cfg (c16_utxo_pass_ok chain h cfg hcfg)
+  · obtain ⟨he, hp⟩ := c16_no_failure_runes chain h cfg (NoPanic.runesOnly_of_not_firstPass cfg hcfg)
+    exact ⟨hp, he⟩
+
+/-- the same as a `Bool`: the run is `ok` -/
+theorem c16_no_failure_isOk (chain : List Block) (h : Valid.validChain chain = true) (cfg : Cfg) :
+    (run cfg chain).isOk = true := by
+  obtain ⟨hp, he⟩ := c16_no_failure chain h cfg
+  cases hr : run cfg chain with
+  | ok r => rfl
+  | err e => exact absurd hr (he e)
+  | panic s => exact absurd hr (hp s)
+
+/-- `c16_no_failure_partial` with the residual list of the lift — which is empty -/
+theorem c16_no_failure_partial2 (chain : List Block) (h : Valid.validChain chain = true) (cfg : Cfg) :
+    (∀ e, run cfg chain ≠ .err e) ∧
+    (∀ s, run cfg chain = .panic s → s ∈ NoPanic.remainingSites) :=
+  ⟨(c16_no_failure chain h cfg).2, fun s hs => absurd hs ((c16_no_failure chain h cfg).1 s)⟩
+
+theorem c16_remaining_sites : NoPanic.remainingSites = [] := rfl
 
 /-- Clause (b), all inputs: `index_transaction_sats` never hits `expect("insufficient inputs for
 transaction outputs")` when the outputs claim at most the value of the input ranges. -/
@@ -184,6 +235,13 @@ def allCfg : Cfg := ⟨true, true, true, true, true, 0, 0, 0⟩
 
 /-- … and with every index on -/
 example : (run allCfg exampleChain).isOk = true := by decide
+
+/-- the full theorem applies to the example chain under every configuration; `allCfg` runs the first
+pass, `runesOnlyCfg` does not (both branches of `c16_no_failure` are inhabited) -/
+example (cfg : Cfg) : (run cfg exampleChain).isOk = true :=
+  c16_no_failure_isOk exampleChain c16_validChain_nonvacuous cfg
+example : NoPanic.FirstPassOn allCfg := rfl
+example : ¬ NoPanic.FirstPassOn runesOnlyCfg := by unfold NoPanic.FirstPassOn; decide
 
 /-- every transaction of the example satisfies the per-transaction hypothesis -/
 example : ∀ b ∈ exampleChain, ∀ tx ∈ b.txs, RuneSafe b.height tx :=
